@@ -135,7 +135,8 @@ class CallbackView(FuncInfo):
   caller of the callback supplies."""
 
   def __init__(self, base: FuncInfo, skip: int, outer: FuncInfo = None,
-               bound: Dict[str, ast.expr] = None):
+               bound: Dict[str, ast.expr] = None,
+               attr_bound: Dict[str, ast.expr] = None):
     import copy as _copy
     self.__dict__.update(base.__dict__)
     self._base = base
@@ -144,7 +145,7 @@ class CallbackView(FuncInfo):
     bound = dict(bound or {})
     all_params = FuncInfo.params.fget(base)
     if outer is not None and not base.is_lambda and (
-        outer.module is base.module):
+        outer.module is base.module or attr_bound):
       # read like the closure it replaces: parameters bound by the caller
       # stand for the bound expressions, the function sits inside `outer`
       node = _copy.deepcopy(base.node)
@@ -156,11 +157,29 @@ class CallbackView(FuncInfo):
           isinstance(v, ast.Name) and v.id == k) or not any(
               isinstance(x, ast.Name) and x.id in own for x in ast.walk(v))}
 
+      self_name = all_params[0] if (base.cls is not None and all_params) else None
+      attr_stores = {n.attr for n in ast.walk(node) if isinstance(
+          n, ast.Attribute) and isinstance(n.ctx, (ast.Store, ast.Del)) and
+                     isinstance(n.value, ast.Name) and n.value.id == self_name}
+      attr_safe = {k: v for k, v in (attr_bound or {}).items()
+                   if k not in attr_stores and not any(
+                       isinstance(x, ast.Name) and x.id in own
+                       for x in ast.walk(v))}
+
       class _S(ast.NodeTransformer):
 
         def visit_Name(self, n):
           if isinstance(n.ctx, ast.Load) and n.id in safe:
             return ast.copy_location(_copy.deepcopy(safe[n.id]), n)
+          return n
+
+        def visit_Attribute(self, n):
+          # self.<field> of a callback object: what the object was made from
+          if isinstance(n.ctx, ast.Load) and isinstance(
+              n.value, ast.Name) and n.value.id == self_name and (
+                  n.attr in attr_safe):
+            return ast.copy_location(_copy.deepcopy(attr_safe[n.attr]), n)
+          self.generic_visit(n)
           return n
 
       node.body = [_S().visit(st) for st in node.body]
@@ -868,6 +887,7 @@ class Project:
     class with __call__.  None unless there is exactly one."""
     found = {}
     bindings: Dict[str, ast.expr] = {}
+    attr_bindings: Dict[str, ast.expr] = {}
 
     def local_value(name):
       vals = [n.value for n in ast.walk(outer.node) if isinstance(
@@ -904,6 +924,7 @@ class Project:
         if fq in self.classes:  # an instance used as the callback
           m = self.find_method(fq, '__call__')
           if m is not None:
+            attr_bindings.update(self._instance_fields(fq, e))
             return m, 1
         return None
       if isinstance(e, ast.Attribute):
@@ -951,10 +972,43 @@ class Project:
         found[(r[0].qualname, r[1])] = r
     if len(found) == 1:
       base, skip = next(iter(found.values()))
-      if skip or bindings:
-        return CallbackView(base, skip, outer, bindings)
+      if skip or bindings or attr_bindings:
+        return CallbackView(base, skip, outer, bindings, attr_bindings)
       return base
     return None
+
+  def _instance_fields(self, cq: str, ctor: ast.Call) -> Dict[str, ast.expr]:
+    """attribute -> constructor argument for `C(args)`: through `self.a = p`
+    in C.__init__, or the annotated fields of a dataclass / NamedTuple."""
+    ci = self.classes.get(cq)
+    if ci is None or any(isinstance(a, ast.Starred) for a in ctor.args) or any(
+        k.arg is None for k in ctor.keywords):
+      return {}
+    init = ci.methods.get('__init__')
+    out: Dict[str, ast.expr] = {}
+    if init is None:
+      fields = [k for k in ci.annotations]
+      if len(ctor.args) > len(fields):
+        return {}
+      out = dict(zip(fields, ctor.args))
+      out.update({k.arg: k.value for k in ctor.keywords if k.arg in fields})
+      return out
+    params = init.params[1:]
+    if len(ctor.args) > len(params):
+      return {}
+    b = dict(zip(params, ctor.args))
+    b.update({k.arg: k.value for k in ctor.keywords if k.arg in params})
+    slf = init.params[0]
+    n_stores: Dict[str, int] = {}
+    for n in walk_function(init.node):
+      if isinstance(n, ast.Assign) and len(n.targets) == 1 and isinstance(
+          n.targets[0], ast.Attribute) and isinstance(
+              n.targets[0].value, ast.Name) and n.targets[0].value.id == slf:
+        a = n.targets[0].attr
+        n_stores[a] = n_stores.get(a, 0) + 1
+        if isinstance(n.value, ast.Name) and n.value.id in b:
+          out[a] = b[n.value.id]
+    return {a: v for a, v in out.items() if n_stores.get(a) == 1}
 
   def cls(self, q: str) -> ClassInfo:
     c = self.classes.get(q)
